@@ -5,8 +5,13 @@
 // T0), 1..3 local streams are bound (before the writer, right after it, or in the middle of
 // the run) and a generated send history is written through the RTPWriters returned by
 // BindLocalStream (downstream = a recording gate). Send instants are odd multiples of
-// 0.5 us after the start of the bubble, tick instants are multiples of 1 us, so a send is
-// never placed at a tick instant and "before the tick" is never a tie.
+// 0.5 us after the origin of the run, tick instants are multiples of 1 us, so a send is
+// never placed at a tick instant and "before the tick" is never a tie. The origin is the
+// start of the bubble plus a per-case shift of 0..1 s in ns steps, and injected clocks get a
+// matching epoch, such that report instants regularly read x.999999000..x.999999999,
+// x.000000xxx, and the neighbourhoods of .5, .25, k/65536 and k*2^-21 s on the interceptor's
+// clock (where a float conversion of the instant rounds across a boundary); injected epochs
+// include 1970..1972, 2035 and the last minutes of NTP era 0.
 //
 // The oracle (model_test.go) is an integer model written from the statement. It is fed by
 // the driver with every packet handed to a stream's writer; the recording RTCP writer
@@ -115,7 +120,10 @@ type scenario struct {
 	num, den  int64   // injected clock speed
 	quantum   int64   // injected clock resolution (ns)
 	epoch     time.Time
-	pre       int64 // virtual ns before BindRTCPWriter (= T0)
+	pre       int64 // virtual ns (after the origin) before BindRTCPWriter (= T0)
+	shift     int64 // virtual ns slept before the origin: moves the ns field of every instant of the run
+	anchorF   int64 // the ns-of-second the anchored report instant is aimed at (-1: none)
+	anchorV   int64 // the tick instant (ns after the origin) that is aimed
 	streams   []*streamScn
 	dense     *denseScn
 	end       int64 // virtual ns after bubble start at which the run stops
@@ -508,13 +516,116 @@ func buildScenario(r *vf.Rand, idx int) *scenario {
 		s.quantum = int64(r.Pick(1, 1, 1000, 1000000, 10000000))
 		// keep every reading inside NTP era 0
 		span := s.end/s.den*s.num/int64(time.Second) + 10
-		sec := int64(r.Pick(0, 1000000000, 2000000000, int(era0EndUnix)-r.Range(1, 1000)))
+		var sec int64
+		switch r.Intn(8) {
+		case 0:
+			sec = 0
+		case 1: // 1970..1972
+			sec = int64(r.Intn(63072000))
+		case 2:
+			sec = 1000000000
+		case 3:
+			sec = 2000000000
+		case 4, 5: // 2035, late in NTP era 0
+			sec = 2051222400 + int64(r.Intn(31536000))
+		case 6: // the last minutes of era 0
+			sec = era0EndUnix - int64(r.Range(1, 1000))
+		default:
+			sec = int64(r.Intn(int(era0EndUnix)))
+		}
 		if sec+span >= era0EndUnix {
 			sec = era0EndUnix - span - int64(r.Range(1, 1000))
 		}
 		s.epoch = time.Unix(sec, int64(r.Intn(1000000000)))
 	}
+	s.anchor(r)
 	return s
+}
+
+// sensitiveFraction draws a ns-of-second at which a float conversion of the instant is
+// prone to rounding across a boundary: the last microsecond of a second (whole range
+// 999999000..999999999), the first microsecond after it, and the neighbourhoods of .5, .25,
+// multiples of 1/65536 s, of 2^-21 s (the float64 resolution of NTP-era seconds) and of 1 ms.
+func sensitiveFraction(r *vf.Rand) int64 {
+	near := func(c int64, w int) int64 {
+		return ((c+int64(r.Range(-w, w)))%1000000000 + 1000000000) % 1000000000
+	}
+	switch q := r.Intn(100); {
+	case q < 25:
+		return 999999000 + int64(r.Intn(1000))
+	case q < 40:
+		return 999999600 + int64(r.Intn(400))
+	case q < 55:
+		return int64(r.Pick(0, 0, 1, r.Intn(1000)))
+	case q < 65:
+		return near(500000000, r.Pick(0, 1, 300, 1000))
+	case q < 73:
+		return near(int64(r.Pick(250000000, 750000000, 125000000, 875000000, 62500000)), r.Pick(0, 1, 300, 1000))
+	case q < 86:
+		k := int64(r.Range(1, 65535))
+		return near((k*1000000000+32768)/65536, r.Pick(0, 1, 2, 300))
+	case q < 94:
+		k := int64(r.Range(1, 1<<21-1))
+		return near(k*1000000000>>21, r.Pick(0, 1, 250))
+	default:
+		return near(int64(r.Range(1, 999))*1000000, r.Pick(0, 1, 500))
+	}
+}
+
+// anchor aims one report instant of the run (every one when the interval is a whole number
+// of seconds and the clock runs at speed 1) at a rounding-sensitive ns-of-second of the
+// interceptor's clock: for the virtual clock by sleeping `shift` ns before the run starts
+// (the bubble's clock starts at a whole second; all instants of the run are relative to the
+// origin after that sleep, so sends stay off the ticks), for a SenderNow clock through the
+// ns field of its epoch. With an injected ticker further ticks are added 1 us before and
+// after the aimed one and whole seconds away from it.
+func (s *scenario) anchor(r *vf.Rand) {
+	s.anchorF = -1
+	if !r.Chance(0.8) {
+		return
+	}
+	if s.manual {
+		if len(s.ticks) == 0 {
+			return
+		}
+		s.anchorV = s.ticks[r.Intn(len(s.ticks))]
+	} else {
+		n := (s.end - s.pre) / s.ivNs
+		if s.kind == kDense {
+			n = 4
+		}
+		if n < 1 {
+			return
+		}
+		s.anchorV = s.pre + int64(r.Range(1, int(n)))*s.ivNs
+	}
+	F := sensitiveFraction(r)
+	s.anchorF = F
+	mod := func(x int64) int64 { return (x%1000000000 + 1000000000) % 1000000000 }
+	if s.injected {
+		sec := s.epoch.Unix()
+		s.epoch = time.Unix(sec, mod(F-s.injNs(s.anchorV)))
+	} else {
+		s.shift = mod(F - s.anchorV)
+	}
+	if s.manual && s.num == s.den && s.quantum == 1 {
+		set := map[int64]bool{}
+		for _, t := range s.ticks {
+			set[t] = true
+		}
+		for k := r.Range(2, 6); k > 0; k-- {
+			t := s.anchorV + int64(r.Pick(-1000, 1000, 1000, 2000, 0, 0))
+			t += int64(r.Range(-3, 3)) * 1000000000 * int64(r.Pick(0, 1, 1))
+			if t > s.pre && !set[t] {
+				set[t] = true
+				s.ticks = append(s.ticks, t)
+			}
+		}
+		sort.Slice(s.ticks, func(i, j int) bool { return s.ticks[i] < s.ticks[j] })
+		if n := len(s.ticks); s.ticks[n-1]+500 > s.end {
+			s.end = s.ticks[n-1] + 500
+		}
+	}
 }
 
 // buildManualTicks chooses the instants (multiples of 1 us, > T0) at which the driver
@@ -680,6 +791,7 @@ func run(c *vf.Case) {
 	if c.Debug {
 		c.Logf("scenario: kind=%s useLatest=%v interval=%dns manualTicker=%v (%d ticks) injectedClock=%v (speed %d/%d resolution %dns epoch %v) T0=%dns end=%dns",
 			kindNames[s.kind], s.useLatest, s.ivNs, s.manual, len(s.ticks), s.injected, s.num, s.den, s.quantum, s.epoch.UTC(), s.pre, s.end)
+		c.Logf("  origin = bubble start + %dns; tick at %dns aimed at ns-of-second %d of the interceptor's clock", s.shift, s.anchorV, s.anchorF)
 		for si, st := range s.streams {
 			c.Logf(" stream %d: ssrc=%d rate=%d shaped=%v bound at %dns, %d sends", si, st.ssrc, st.rate, st.shaped, st.bindAt, len(st.sends))
 			for i, sd := range st.sends {
@@ -723,7 +835,10 @@ func run(c *vf.Case) {
 	var written int64
 
 	c.Bubble(func() {
-		bubbleStart := time.Now()
+		if s.shift > 0 {
+			time.Sleep(time.Duration(s.shift))
+		}
+		bubbleStart := time.Now() // the origin of every planned instant of the run
 		w.bubbleStart = bubbleStart
 		mon.bubbleStartUnixNs = bubbleStart.UnixNano()
 		g0 := runtime.NumGoroutine()
